@@ -573,6 +573,33 @@ def kind_of_hint(t):
     return "normal"
 
 
+def shape_of(t):
+    """the type hint as CodeBuilder.is_field_nullable looks at it, in the grammar of kernel K17 (OptProj.fty):
+    Annotated / Final wrappers, Any / NoneType / None, two-member Optional, wider union with None, unbound TypeVar,
+    anything else (incl. PEP 695 aliases, NewTypes and bound TypeVars) plain"""
+    if typing.get_origin(t) is typing.Annotated:
+        return "(OptProj.TyAnnotated %s)" % shape_of(t.__origin__)
+    if typing.get_origin(t) is typing.Final:
+        a = typing.get_args(t)
+        return "(OptProj.TyFinal %s)" % shape_of(a[0]) if a else "OptProj.TyFinalBare"
+    if t is typing.Final:
+        return "OptProj.TyFinalBare"
+    if t is typing.Any:
+        return "OptProj.TyAny"
+    if t is type(None):
+        return "OptProj.TyNoneType"
+    if t is None:
+        return "OptProj.TyNoneLit"
+    if typing.get_origin(t) in (typing.Union, types.UnionType):
+        a = typing.get_args(t)
+        if type(None) in a:
+            return "OptProj.TyOptional" if len(a) == 2 else "OptProj.TyUnionNone"
+        return "OptProj.TyPlain"
+    if isinstance(t, typing.TypeVar) and t.__bound__ is None and not t.__constraints__:
+        return "OptProj.TyTypeVarAny"
+    return "OptProj.TyPlain"
+
+
 def dflt_of(default, factory):
     if default is not MISSING:
         return ("val", default)
@@ -645,7 +672,6 @@ def analyse(mod, spec_types, timing, aliases=None, nba=False):
             m["df"] = bfield_of(odf) if odf is not None else None
         st = spec_types.get(name)
         srcs = (aliases or {}).get(name) if kind == "normal" else None
-        mech = ("annotated", None) if srcs and "annotated" in dict(srcs) else None
         m["alias"] = expected_alias(srcs)
         m["nba"] = bool(nba)
         # the three places the builder looks an alias up in, as they are on the real class (resolved in Coq by K4)
@@ -658,22 +684,14 @@ def analyse(mod, spec_types, timing, aliases=None, nba=False):
             tname, passthrough = st
             m["type"] = tname
             m["conv"] = TYPES[tname][0]
-            m["nullty"] = TYPES[tname][2]
-            m["unull"] = TYPES[tname][4]
-            if mech and mech[0] == "annotated" and tname != "Any":
-                # Annotated[T, Alias(..)] hides an Optional from the field block like any other wrapper
-                m["unull"] = m["unull"] or m["nullty"]
-                m["nullty"] = False
-            elif mech and mech[0] == "annotated":
-                m["nullty"] = False
+            m["shape"] = shape_of(t)          # m_nullty is computed from it in Coq by the translated is_field_nullable
             m["sem_null"] = type_nullable(tname)
             m["ident"] = TYPES[tname][3] or passthrough
             m["pass"] = passthrough
         else:
             m["type"] = "int" if kind == "normal" else None     # the plain base member is `int`
             m["conv"] = "CInt" if kind == "normal" else "CId"
-            m["nullty"] = False
-            m["unull"] = False
+            m["shape"] = shape_of(t) if kind == "normal" else "OptProj.TyPlain"
             m["sem_null"] = False
             m["ident"] = False
             m["pass"] = False
@@ -873,10 +891,10 @@ KIND = {"normal": "KNormal", "initvar": "KInitVar", "classvar": "KClassVar", "se
 
 
 def coq_member(m):
-    return "mkm %s %s %s %s %s %s %s %s %s %s %s %s" % (
+    return "mkm %s %s %s %s %s %s %s %s %s %s %s" % (
         coq_str(m["name"]), KIND[m["kind"]], coq_bool(m["field"]), coq_bool(m["param"]), coq_bool(m["kw"]),
         coq_dflt(m["def"]), coq_bool(m["own"]), coq_ns(m["ns"]), "None" if m["df"] is None else "(Some %s)" % coq_bfield(m["df"]),
-        coq_bool(m["nullty"]), coq_bool(m["ident"]), coq_bool(m.get("unull", False)))
+        coq_bool(m["ident"]), coq_bool(m.get("sem_null", False)))
 
 
 def coq_lay(members, sigpos, sigkw):
@@ -890,8 +908,9 @@ def coq_lay(members, sigpos, sigkw):
                                                             or m["asrc"][2]))
     tables = members[0]["anc_tables"] if members else []
     anc = "; ".join("[%s]" % "; ".join("(%s, %s)" % (coq_str(n), coq_bfield(b)) for n, b in t) for t in tables)
-    return ("{| ly_L := [%s];\n     ly_asrc := [%s];\n     ly_anc := [%s];\n     ly_kinds := [%s]; ly_nba := %s; ly_sigpos := [%s]; ly_sigkw := [%s] |}" % (
-        ";\n       ".join(coq_member(m) for m in members), asrc, anc,
+    tys = "; ".join("(%s, %s)" % (coq_str(m["name"]), m["shape"]) for m in members if m["kind"] == "normal")
+    return ("{| ly_L := [%s];\n     ly_asrc := [%s];\n     ly_anc := [%s];\n     ly_ty := [%s];\n     ly_kinds := [%s]; ly_nba := %s; ly_sigpos := [%s]; ly_sigkw := [%s] |}" % (
+        ";\n       ".join(coq_member(m) for m in members), asrc, anc, tys,
         "; ".join("(%s, %s)" % (coq_str(m["name"]), m["conv"]) for m in members if m["kind"] == "normal"),
         coq_bool(nba), "; ".join(coq_str(n) for n in sigpos), "; ".join(coq_str(n) for n in sigkw)))
 
@@ -915,7 +934,7 @@ class Rejected(Exception):
 def pyconv(m, v, cls=None):
     if m["ident"]:
         return v
-    if v is None and (m["nullty"] or m["unull"] or m["def"] == ("val", None)):
+    if v is None and (m["sem_null"] or m["def"] == ("val", None)):
         return None
     try:
         r = TYPES[m["type"]][1](v)
@@ -1088,9 +1107,9 @@ def run(ctx: vlib.Ctx):
         "well-typed value assignment per subset; distinct = (layout shape, entry timing, key subset)")
     br = ctx.theorems("props/C07_bind.vo", [
         "C07_binding_partial", "C07_binding_post", "C07_binding", "C07_error", "C07_null_wins",
-        "C07_keys_are_code", "C07_first_key_wins",
+        "C07_keys_are_code", "C07_first_key_wins", "C07_nullable_is_code",
         "C07_positional_prefix", "C07_noninit_unread", "C07_sticky_irrelevant", "C07_factory_fresh",
-        "C07_binding_refuted", "C07_noninit_refuted_plain_base"], kernels=["K4"])
+        "C07_binding_refuted", "C07_noninit_refuted_plain_base"], kernels=["K4", "K17"])
     if br.ok and not ctx.quick():
         rc, out, _ = vlib.run(["timeout", "900", "coqchk", "-silent", "-o"] + vlib.COQ_FLAGS[:9] + ["VerifProps.C07_bind"],
                               cwd=vlib.COQ, timeout=930)
@@ -1157,7 +1176,7 @@ def run(ctx: vlib.Ctx):
             li = len(lays)
             lays.append(coq_lay(members, sigpos, sigkw))
             shape = tuple((m["kind"], m["field"], m["param"], m["kw"], m["def"][0], m["own"], m["ns"][0],
-                           m["nullty"], m["ident"]) for m in members)
+                           m["shape"], m["ident"]) for m in members)
             ctx.hist("entries", "%s/%s" % (entry, timing))
             ctx.hist("members_per_layout", str(len(members)))
             for m in members:
@@ -1174,7 +1193,7 @@ def run(ctx: vlib.Ctx):
                                                               "not_by_alias" if m["nba"] else "alias-only"))
                 if m["kind"] == "normal" and m["field"] and m["param"]:
                     ctx.hist("default_spectrum", "%s/%s/%s" % (
-                        region_of(m["def"]), "nullable-type" if m["nullty"] else "plain-type",
+                        region_of(m["def"]), "nullable-type" if m["sem_null"] else "plain-type",
                         "identity" if m["ident"] else "converting"))
             for mask, d in inputs_for(ctx.rng, members, st, ctx.budget(7, 9) if prog.get("sweep") else nmax):
                 for m in members:
@@ -1262,7 +1281,7 @@ def coq_two_idx(name, lays, cases, shard):
     """one Coq pass over the cases: (indices where case_ok fails, indices where ref_agrees fails, log);
     (None, None, log) when Coq failed"""
     import re
-    br = vlib.coq_make(["theories/Wire.vo", "theories/PyK.vo", "gen/K4.vo", "theories/BindCases.vo"])
+    br = vlib.coq_make(["theories/Wire.vo", "theories/PyK.vo", "gen/K4.vo", "gen/K17.vo", "theories/BindCases.vo"])
     if not br.ok:
         return None, None, "model does not build: " + (br.error or "")
     files = []
